@@ -213,3 +213,64 @@ Theorem combined_request_srs_supported_by_every_member :
     wms_get_map T kn kd GI GC e q = Request r -> w_srs e <> [] -> In m ms ->
     In (s_code (r_srs r)) (map s_code (w_srs m)).
 Proof. exact combined_request_code_of_members. Qed.
+
+(* ---- the same statements about the URL that is opened (what the upstream observes) *)
+(* the SRS parameter of the URL is one of the configured codes *)
+Theorem url_srs_is_a_configured_code :
+  forall (T : srs -> srs -> bbox -> option bbox) (kn kd : Z) (GI GC : Z -> bbox -> bool)
+         (src : wms_source) (q : query) (r : request) (tmpl : params) (fixed : list (Z * Z)),
+    wms_get_map T kn kd GI GC src q = Request r -> w_srs src <> [] -> ~ In K_SRS (map fst fixed) ->
+    exists c, pget K_SRS (url_params tmpl fixed r) = Some [VStr c] /\ In c (map s_code (w_srs src)).
+Proof. exact url_srs_supported. Qed.
+
+(* the FORMAT parameter of the URL is the mime type of a format that is, or compares equal to, a configured one *)
+Theorem url_format_is_a_configured_format :
+  forall (T : srs -> srs -> bbox -> option bbox) (kn kd : Z) (GI GC : Z -> bbox -> bool)
+         (src : wms_source) (q : query) (r : request) (tmpl : params) (fixed : list (Z * Z)),
+    wms_get_map T kn kd GI GC src q = Request r -> w_fmts src <> [] -> ~ In K_FORMAT (map fst fixed) ->
+    exists f e, pget K_FORMAT (url_params tmpl fixed r) = Some [VStr (f_mime f)] /\
+                In e (w_fmts src) /\ (f = e \/ fmt_match f e = true).
+Proof. exact url_format_supported. Qed.
+
+(* the BBOX parameter of the URL is the negotiated bbox, which lies in the coverage extent *)
+Theorem url_bbox_is_within_extent :
+  forall (T : srs -> srs -> bbox -> option bbox) (kn kd : Z) (GI GC : Z -> bbox -> bool)
+         (src : wms_source) (q : query) (r : request) (tmpl : params) (fixed : list (Z * Z)) (cb : bbox) (cs : srs),
+    wms_get_map T kn kd GI GC src q = Request r -> w_cov src = Some (cb, cs) -> geom_contains_sound GC src ->
+    ~ In K_BBOX (map fst fixed) ->
+    pget K_BBOX (url_params tmpl fixed r) = Some [VBox (r_bbox r)] /\ within_extent T cb cs r.
+Proof. exact url_bbox_in_extent. Qed.
+
+(* a parameter of the URL that is not a template parameter, not bbox/width/height/srs/format, not a fixed parameter
+   and not styles is the lower-cased name of a dimension of the query that the source is configured to forward *)
+Theorem url_extra_parameter_is_a_configured_dimension :
+  forall (T : srs -> srs -> bbox -> option bbox) (kn kd : Z) (GI GC : Z -> bbox -> bool)
+         (src : wms_source) (q : query) (r : request) (tmpl : params) (fixed : list (Z * Z)) (k : Z),
+    wms_get_map T kn kd GI GC src q = Request r ->
+    In k (keys (url_params tmpl fixed r)) ->
+    ~ In k (keys tmpl) -> reserved k = false -> ~ In k (map fst fixed) -> k <> K_STYLES ->
+    In k (w_fwd src) /\ exists d, In d (q_dims q) /\ d_lower d = k.
+Proof. exact url_extra_key_is_configured_dimension. Qed.
+
+(* ... and its value: every such parameter (and every template parameter) has the value of the template, or exactly the
+   values of the forwarded dimensions with that lower-cased name, in the order of the query *)
+Theorem url_parameter_values :
+  forall (tmpl : params) (fixed : list (Z * Z)) (r : request) (k : Z),
+    reserved k = false -> ~ In k (map fst fixed) -> k <> K_STYLES ->
+    pget k (url_params tmpl fixed r) =
+    match kvals k (map (fun d => (d_lower d, VStr (d_val d))) (r_fwd r)) with
+    | [] => pget k tmpl
+    | vl => Some vl
+    end.
+Proof. exact url_param_value. Qed.
+
+(* Request in the SRS of a (bbox) coverage, SRS supported or unrestricted: the bbox that is sent is a proper
+   (non-empty) rectangle: the clipped sub query is the intersection of two overlapping rectangles. *)
+Theorem upstream_bbox_nonempty_same_srs :
+  forall (T : srs -> srs -> bbox -> option bbox) (kn kd : Z) (GI GC : Z -> bbox -> bool)
+         (src : wms_source) (q : query) (r : request) (cb : bbox) (cs : srs),
+    wms_get_map T kn kd GI GC src q = Request r ->
+    w_cov src = Some (cb, cs) -> w_geom src = None -> proper cb = true -> srs_eq (q_srs q) cs = true ->
+    (w_srs src = [] \/ find (fun s => srs_eq (q_srs q) s) (w_srs src) <> None) ->
+    proper (r_bbox r) = true.
+Proof. exact request_bbox_proper_same_srs. Qed.
